@@ -802,9 +802,17 @@ class Step(Node):
         or when another creator takes it over.
         The step itself stays recyclable, but its stored hash no longer describes
         a complete run: skipping the step would leave the lost products unbuilt.
-        Without a hash, a recycled step always runs again and recreates them.
+        Without a hash, a recycled step always runs again and recreates them,
+        see `after_recycle`.
+        The detached creator of this step no longer records everything it defined either:
+        when it would be recycled and skipped, this step would come back as it is now,
+        without the lost product.
+        The invalidation is therefore passed on up the detached part of the creator chain.
         """
         self.delete_hash()
+        creator, creator_detached = self.creator_and_detached()
+        if isinstance(creator, Step) and creator_detached:
+            creator.after_lost_product()
 
     def before_delete(self):
         """Queue the working directory for removal right before the step is deleted.
@@ -877,7 +885,10 @@ class Step(Node):
             "UPDATE step SET need = ?, shell = ?, _holding = 0 WHERE node = ?",
             (need.value, int(shell), self.i),
         )
-        if self.get_state() == StepState.FAILED:
+        state = self.get_state()
+        if state == StepState.FAILED or (state == StepState.SUCCEEDED and self.get_hash() is None):
+            # A succeeded step without a stored hash lost one of its products while detached
+            # (see `after_lost_product`), so its record is incomplete and it must run again.
             self.graph.mark_step_pending(self)
         self.set_resources(resources)
         self.set_env_overrides(env_overrides)
